@@ -38,7 +38,10 @@ import (
 // failures), C10 (run number and timestamps); which oracles report is selected by SIM_PROP.
 
 // ---- documented graph (from the handbook / property statement; not read from the code) ----
-var graph = map[string]struct{ src []string; dst string }{
+var graph = map[string]struct {
+	src []string
+	dst string
+}{
 	"DEPLOY":         {[]string{"STANDBY"}, "DEPLOYED"},
 	"CONFIGURE":      {[]string{"DEPLOYED"}, "CONFIGURED"},
 	"START_ACTIVITY": {[]string{"CONFIGURED"}, "RUNNING"},
@@ -131,15 +134,15 @@ func (w *world) add(r *rec) *rec {
 
 type plugin struct{}
 
-func (plugin) GetName() string                                           { return "sp" }
-func (plugin) GetPrettyName() string                                     { return "sim probe" }
-func (plugin) GetEndpoint() string                                       { return "sim" }
-func (plugin) GetConnectionState() string                                { return "READY" }
-func (plugin) GetData([]any) string                                      { return "" }
-func (plugin) GetEnvironmentsData([]uid.ID) map[uid.ID]string            { return nil }
-func (plugin) GetEnvironmentsShortData([]uid.ID) map[uid.ID]string       { return nil }
-func (plugin) Init(string) error                                         { return nil }
-func (plugin) Destroy() error                                            { return nil }
+func (plugin) GetName() string                                     { return "sp" }
+func (plugin) GetPrettyName() string                               { return "sim probe" }
+func (plugin) GetEndpoint() string                                 { return "sim" }
+func (plugin) GetConnectionState() string                          { return "READY" }
+func (plugin) GetData([]any) string                                { return "" }
+func (plugin) GetEnvironmentsData([]uid.ID) map[uid.ID]string      { return nil }
+func (plugin) GetEnvironmentsShortData([]uid.ID) map[uid.ID]string { return nil }
+func (plugin) Init(string) error                                   { return nil }
+func (plugin) Destroy() error                                      { return nil }
 func (plugin) ObjectStack(map[string]string, map[string]string) map[string]interface{} {
 	return map[string]interface{}{}
 }
@@ -370,6 +373,35 @@ func body(c *hk.Ctx) {
 		h.DelayMs = []int{0, 0, 10, 2000}[c.W(4, "hook-delay")]
 		addHook(h)
 	}
+	if prop == "C09" && len(reach) > 0 && c.W(3, "mixed-criticality-failures") == 2 {
+		// a critical and a non-critical hook failing at the same moment and weight, and a
+		// healthy hook later in the same phase (which must not run when the moment can cancel)
+		ti := c.W(len(reach), "mixed-moment")
+		wi := c.W(len(weights)-1, "mixed-weight")
+		if (weights[wi] < 0) != (weights[wi+1] < 0) && wi > 0 {
+			wi-- // keep both weights on the same side of zero
+		}
+		tr := trigExpr(reach[ti], weights[wi])
+		addHook(&hookSpec{Trigger: tr, Await: tr, Critical: true, Fail: true})
+		addHook(&hookSpec{Trigger: tr, Await: tr, Critical: false, Fail: true})
+		later := trigExpr(reach[ti], weights[wi+1])
+		addHook(&hookSpec{Trigger: later, Await: later})
+	}
+	if prop == "C10" {
+		// the end of a run that "fails" after the point of no return: a critical hook failing at
+		// enter_CONFIGURED / after_STOP_ACTIVITY (the run is over all the same)
+		stopReached := false
+		for _, m := range reach {
+			if m == "after_STOP_ACTIVITY" {
+				stopReached = true
+			}
+		}
+		if stopReached && c.W(3, "late-critical-failure-at-stop") == 2 {
+			m := []string{"after_STOP_ACTIVITY", "enter_CONFIGURED"}[c.W(2, "where")]
+			tr := trigExpr(m, []int{0, 1, 50}[c.W(3, "late-weight")])
+			addHook(&hookSpec{Trigger: tr, Await: tr, Critical: true, Fail: true})
+		}
+	}
 	for _, h := range sc.Hooks {
 		w.groupN[h.Trigger]++
 	}
@@ -404,7 +436,7 @@ func body(c *hk.Ctx) {
 	}
 
 	// ---- the system under test ----
-	envId := uid.New()
+	envId := uid.ID("2rE9AV3m1HL") // a fixed id: the process-wide generator keeps state across runs
 	env, err := environment.NewEnvironmentForVerif(map[string]string{}, envId,
 		func(parent workflow.Updatable) (workflow.Role, error) {
 			var roles []workflow.Role
@@ -958,11 +990,13 @@ func checkRuns(c *hk.Ctx, viol func(p, oracle, sig, format string, a ...any), w 
 		if es.start == 0 {
 			continue
 		}
+		if es.h.Await != es.h.Trigger {
+			// a call awaited later runs at an unspecified time after its trigger point (possibly
+			// while a later transition is under way): it says nothing about where a run ends
+			continue
+		}
 		if lastOfRun != nil && es.br != lastOfRun {
 			cur, lastOfRun = nil, nil
-		}
-		if es.h.Await != es.h.Trigger {
-			continue // a call awaited later runs at an unspecified time after its trigger point
 		}
 		v := es.vars
 		rn, st := v["run_number"], v["run_start_time_ms"]
